@@ -297,14 +297,36 @@ Definition h3_parse_headers (is_request : bool) (fs : list field) : hres h3heade
       end
   end.
 
-(* parseTrailers: pseudo-header fields refused, everything else added as is *)
+(* parseTrailers (after the fix: the §4.2 checks of parseHeaders, then no pseudo-header fields) *)
+Definition h3_trailer_field_check (f : field) : option hderr :=
+  let '(name, value) := f in
+  if negb (is_ascii name) then Some HNonAsciiName
+  else if existsb is_upper name then Some HNotLower
+  else if negb (valid_field_value value) then Some HBadValue
+  else if is_pseudo name then Some HPseudoInTrailer
+  else if negb (valid_field_name name) then Some HBadName
+  else if mem_bytes name h3InvalidHeaderFields then Some HBadName
+  else if bytes_eqb name name_te && negb (bytes_eqb value value_trailers) then Some HBadTE
+  else None.
 Fixpoint h3_parse_trailers_from (m : hmap) (fs : list field) : hres hmap :=
   match fs with
   | [] => HOk m
-  | (name, value) :: r => if is_pseudo name then HErr HPseudoInTrailer
-                          else h3_parse_trailers_from (header_add name value m) r
+  | f :: r => match h3_trailer_field_check f with
+              | Some e => HErr e
+              | None => h3_parse_trailers_from (header_add (fst f) (snd f) m) r
+              end
   end.
 Definition h3_parse_trailers (fs : list field) : hres hmap := h3_parse_trailers_from [] fs.
+
+(* the pinned parseTrailers (= quic-go v0.48.2): pseudo-header fields refused, everything else -
+   upper-case names, control characters, connection-specific fields - added as is *)
+Fixpoint h3_parse_trailers_pinned_from (m : hmap) (fs : list field) : hres hmap :=
+  match fs with
+  | [] => HOk m
+  | (name, value) :: r => if is_pseudo name then HErr HPseudoInTrailer
+                          else h3_parse_trailers_pinned_from (header_add name value m) r
+  end.
+Definition h3_parse_trailers_pinned (fs : list field) : hres hmap := h3_parse_trailers_pinned_from [] fs.
 
 (* strconv.Atoi: optional sign, decimal digits, the value fits an int64 *)
 Definition go_atoi (s : bytes) : option Z :=
